@@ -373,11 +373,11 @@ static void list_units(const std::string& tier0)
     } else if (P=="c07") {
         for (const char* pol : {"eao","eap"}) for (const char* k : {"S:MTb:F","S:MTi:Q","R:MTb:I"}) {
             const char* sh = k[0]=='R' ? "S3" : "S7";
-            snprintf(b,sizeof b,"profile=c07,kind=%s,shape=%s,depth=%d,cat=5,pol=%s,cfgs=%s,compress=%d", k, sh, th?3:2, pol, th?"ct36":"ct12", th?1:0); emit(b, th?16:8);
+            snprintf(b,sizeof b,"profile=c07,kind=%s,shape=%s,depth=%d,cat=5,pol=%s,cfgs=%s,compress=%d", k, sh, th?3:2, pol, th?"ct36":"ct12", th?1:0); emit(b, th?64:8);
             if (!th) { snprintf(b,sizeof b,"profile=c07,kind=%s,shape=%s,depth=3,cat=4,pol=%s,cfgs=default", k, sh, pol); emit(b, 8); }
         }
         // relation scenario: image / reachability / saturation operations (their own caches and cached relation split) under every CT configuration
-        for (const char* pol : {"eao","eap"}) { snprintf(b,sizeof b,"profile=c07,kind=S:MTb:F,shape=S4,depth=%d,cat=4,pol=%s,rel=I,cfgs=%s", th?3:2, pol, th?"ct36":"ct12"); emit(b, th?16:8);
+        for (const char* pol : {"eao","eap"}) { snprintf(b,sizeof b,"profile=c07,kind=S:MTb:F,shape=S4,depth=%d,cat=4,pol=%s,rel=I,cfgs=%s", th?3:2, pol, th?"ct36":"ct12"); emit(b, th?32:8);
             if (!th) { snprintf(b,sizeof b,"profile=c07,kind=S:MTb:F,shape=S4,depth=3,cat=3,pol=%s,rel=I,cfgs=default", pol); emit(b, 8); } }
     } else if (P=="c12") {
         for (const char* k : {"S:MTi:Q","R:MTb:I","S:EVpi:F","R:EVtr:F","S:MTb:F"}) {
